@@ -43,6 +43,7 @@ type config struct {
 	depthQ int
 	depthT int
 	note   string
+	groups int // number of Family cases the first operations are split into (0 = default)
 
 	ops    []op
 	keys   []*AKey // menu keys (resolved lazily)
@@ -128,7 +129,7 @@ type sim struct {
 	T    *rt.Table
 	M    *reftable.Table
 	tr   *reftable.Traversal
-	curV rt.Value // last key handed out by Next (argument of the next Next)
+	curV rt.Value        // last key handed out by Next (argument of the next Next)
 	upd  map[string]bool // kinds of updates applied since the traversal started
 }
 
